@@ -80,6 +80,7 @@ def run(ctx):
                 "case; distinct = distinct (flavour, class, operands)")
     impl = ac.prepare(ctx)
     if impl is None:
+        raw_search(ctx)
         return ctx.finish()
     ctx.props("C17")
     quick = ctx.tier == "quick"
@@ -139,6 +140,44 @@ def search(ctx, impl):
                     return
                 if stable_oracle(impl, fname, [p]) is not None:
                     ctx.violation("text -> binary -> text is not stable", dict(flavour=fname, body=[p]), key=None)
+                    return
+
+
+def raw_search(ctx):
+    """the translators refused the source: look for a failing instruction without the tables
+    (classes and operand types straight from the flavour objects)"""
+    import codec_tables as ct
+    try:
+        encoding, operand, fl = ct.load(ctx.repo)
+        from netqasm.lang.parsing.text import parse_text_subroutine
+    except Exception:  # noqa
+        return
+    rng = ctx.rng
+    for fname, flav in ct.flavours(fl):
+        for cls in list(fl.CORE_INSTRUCTIONS) + list(flav.instrs):
+            try:
+                _, kinds = ct.operand_fields(cls)
+            except Exception:  # noqa
+                continue
+            for _ in range(20):
+                leaves, ops = [], []
+                for k in kinds:
+                    lv = {"KReg": [rng.randrange(4), rng.randrange(16)], "KImm": [rng.randint(-5, 300)],
+                          "KAddr": [rng.randint(0, 9)], "KEntry": [rng.randint(0, 9), rng.randrange(4), rng.randrange(16)],
+                          "KSlice": [rng.randint(0, 9), rng.randrange(4), rng.randrange(16), rng.randrange(4),
+                                     rng.randrange(16)]}[k]
+                    leaves += lv
+                    ops.append(ct.mk_operand(operand, encoding, k, lv))
+                try:
+                    instr = cls.from_operands(ops)
+                    text = str(instr)
+                    back = list(parse_text_subroutine(ac.HEADER + text + "\n", flavour=flav).instructions)
+                    ok = back == [instr]
+                except Exception:  # noqa
+                    ok, text = False, "<raised>"
+                if not ok:
+                    ctx.violation("parse_text_subroutine(str(instr), flavour).instructions != [instr]",
+                                  dict(flavour=fname, cls=cls.__name__, operands_given=leaves, printed=text), key=None)
                     return
 
 
